@@ -38,6 +38,23 @@ func typeAssertSource(v ssa.Value, pkt ssa.Value) (types.Type, string) {
 			names = append([]string{fieldOfVal(x).Name()}, names...)
 			cur = x.X
 		case *ssa.Alloc:
+			// a struct parameter of a helper spilled to a local: go on from the argument
+			var spilled ssa.Value
+			nst := 0
+			for _, r := range *x.Referrers() {
+				if st, ok := r.(*ssa.Store); ok && st.Addr == x {
+					nst++
+					if p, ok := st.Val.(*ssa.Parameter); ok {
+						if o := origin(p); o != ssa.Value(p) {
+							spilled = o
+						}
+					}
+				}
+			}
+			if nst == 1 && spilled != nil {
+				cur = spilled
+				continue
+			}
 			for _, r := range *x.Referrers() {
 				if st, ok := r.(*ssa.Store); ok && st.Addr == x {
 					if ex, ok := st.Val.(*ssa.Extract); ok && ex.Index == 0 {
@@ -49,6 +66,12 @@ func typeAssertSource(v ssa.Value, pkt ssa.Value) (types.Type, string) {
 						return ta.AssertedType, strings.Join(names, ".")
 					}
 				}
+			}
+			return nil, ""
+		case *ssa.Parameter:
+			if o := origin(x); o != ssa.Value(x) {
+				cur = o
+				continue
 			}
 			return nil, ""
 		case *ssa.Extract:
